@@ -8,6 +8,8 @@ Streams
             the property's clauses are evaluated per vial on the run (`predicates`).
             With `rerun`: run, query every fromStates accessor, re-seed, run again, query again - the answers
             must describe the current run.
+            With `mutate`: query every accessor, post-process every RETURNED array in place (scale, NaN, sort,
+            invert masks), query again - answers and recorded statistics must be unchanged.
   laststep  two-pass real run: the second pass stops in the step in which the last vial
             of the first pass nucleates (same seeds) - nucleation in the LAST step (K3).
   fake      accessor code on hand-made `_X/_t/stats` (as tests/test_snowflake.py::fakeS
@@ -20,6 +22,7 @@ Streams
 """
 from __future__ import annotations
 
+import json
 import math
 from fractions import Fraction
 
@@ -199,7 +202,7 @@ def _query_times(case, t, S):
     return out
 
 
-def _observe(S, case, ran=True):
+def _observe_once(S, case, ran=True):
     """call every accessor of the statistics on S"""
     obs = {"raise": None, "ran": ran}
     obs["mask"] = [bool(b) for b in S._storageMask]
@@ -242,6 +245,62 @@ def _observe(S, case, ran=True):
         d["count_stats"] = _call_counts(lambda: S.sigmaCounter(obs["times"], threshold=thr, fromStates=False))
         per.append(d)
     obs["perThr"] = per
+    return obs
+
+
+def _spoil(a):
+    """what a caller may do with a RETURNED array: post-process it in place"""
+    if not isinstance(a, np.ndarray) or a.size == 0:
+        return
+    try:
+        if a.dtype == bool:
+            a[:] = ~a
+        else:
+            a /= 60.0
+            a[0] = np.nan
+            a.sort()
+    except (ValueError, TypeError):  # read-only result: nothing a caller could spoil
+        pass
+
+
+def _spoil_returned(S, case, times):
+    """call every array-returning accessor and mutate what it returned (never the object's own attributes).
+    `X_T` / `X_sigma` are documented views of the state matrix ("This is just a slice of _X!") and are left alone."""
+    group = case.get("group", "all")
+    calls = [lambda: S.getVialGroup(group), lambda: S.getVialGroup("all")]
+    for fs in (False, True):
+        calls += [lambda fs=fs: S.nucleationTimes(group=group, fromStates=fs),
+                  lambda fs=fs: S.nucleationTemperatures(group=group, fromStates=fs),
+                  lambda fs=fs: S.nucleationTimes(fromStates=fs),
+                  lambda fs=fs: S.nucleationTemperatures(fromStates=fs),
+                  lambda fs=fs: S.solidificationTimes(fromStates=fs),
+                  lambda fs=fs: S.solidificationTimes(group=group, fromStates=fs),
+                  lambda fs=fs: S.sigmaCounter(times, fromStates=fs),
+                  lambda fs=fs: S.sigmaCounter(times, threshold=0, fromStates=fs)]
+    calls += [lambda: S._sigmaCrossingIndices(threshold=0), lambda: S._sigmaCrossingIndices()]
+    for f in calls:
+        try:
+            r = f()
+        except Exception:
+            continue
+        for a in (r if isinstance(r, tuple) else (r,)):
+            _spoil(a)
+
+
+_REQUERY_KEYS = ("grp", "tnuc", "Tnuc", "tsol", "tnuc_states", "Tnuc_states", "tnuc_stats", "Tnuc_stats", "perThr", "Xs", "XT")
+
+
+def _observe(S, case, ran=True):
+    """every accessor; with `mutate`: query, spoil every RETURNED array in place, query again - the second
+    observation is the one reported (so every comparison and predicate is about the object AFTER the caller's
+    post-processing), together with the list of answers that changed."""
+    obs = _observe_once(S, case, ran)
+    if case.get("mutate") and ran:
+        _spoil_returned(S, case, obs["times"])
+        c2 = dict(case, times=obs["times"])
+        obs2 = _observe_once(S, c2, ran)
+        obs2["requery_changed"] = [k for k in _REQUERY_KEYS if k in obs and json.dumps(obs[k], default=str) != json.dumps(obs2.get(k), default=str)]
+        return obs2
     return obs
 
 
@@ -551,6 +610,10 @@ def predicates(case, impl):
     adm = [_adm_row(row) for row in Xs]
     adm_all = all(adm)
 
+    if impl.get("requery_changed"):
+        F("accessor_pure", "+".join(impl["requery_changed"][:4]), "in-place-mutation-of-returned-array",
+          f"after mutating the arrays RETURNED by the accessors in place, these answers / recorded statistics of the same "
+          f"object changed: {impl['requery_changed']}")
     # the time vector has one entry per stored column
     if len(t) != impl["ncols"] or impl["ncols"] != N:
         F("time_grid", "run", "length", f"len(_t)={len(t)}, columns={impl['ncols']}, N_timeSteps={N} (dt={dt})")
@@ -729,6 +792,8 @@ def classify(case, impl):
         tags.append("cn" if case.get("cn") is not None else "no-cn")
         if case.get("rerun"):
             tags.append("history=run,query,reseed,run,query")
+        if case.get("mutate"):
+            tags.append("history=query,mutate-returned-arrays,query")
         tags.append(f"group={case.get('group', 'all')}")
         tend = impl["t"][impl["ncols"] - 1]
         if any(x is not None and x > tend for x in impl["tnuc"]):
@@ -829,6 +894,8 @@ def _real(rng, big=False):
                 qfrac=sorted(rng.random() for _ in range(4)) + [0, 1], offgrid=True)
     if unstable:
         case["unstable"] = True
+    if rng.random() < 0.35:
+        case["mutate"] = True
     if rng.random() < 0.15:
         case["rerun"] = {"seed": rng.randint(0, 10 ** 6), "seed_v": rng.choice([None, rng.randint(0, 10 ** 6)])}
     if holds and rng.random() < 0.5:
